@@ -171,7 +171,8 @@ def parse_checks(checks) -> Union[Dict[str, Any], None]:
             continue
 
         # Get base statistics
-        base_stats = {} if check.statistics is None else check.statistics
+        # copy so that the check's own statistics are not modified below
+        base_stats = {} if check.statistics is None else {**check.statistics}
 
         # Collect check options
         check_options = {
